@@ -27,6 +27,8 @@ func main() {
 		os.Exit(cmdReplay(os.Args[2:]))
 	case "selftest":
 		os.Exit(cmdSelftest(os.Args[2:]))
+	case "catalog":
+		os.Exit(cmdCatalog(os.Args[2:]))
 	case "expand":
 		os.Exit(cmdExpand(os.Args[2:]))
 	}
